@@ -251,8 +251,23 @@ def product_witness(dfas, accept):
     start = tuple(d.start for d in dfas)
     prev = {start: None}
     q = collections.deque([start])
+    # dead-state pruning: a component in a non-accepting sink can never accept again
+    dead = []
+    for d in dfas:
+        ds = set()
+        for s, row in enumerate(d.delta):
+            if s not in d.finals and all(t == s for t in row):
+                ds.add(s)
+        dead.append(ds)
+    all_required = True
+    try:
+        all_required = accept(tuple([True] * len(dfas))) and not accept(tuple([False] + [True] * (len(dfas) - 1)))
+    except Exception:
+        all_required = False
     while q:
         st = q.popleft()
+        if all_required and any(s in ds for s, ds in zip(st, dead)):
+            continue
         if accept(tuple(s in d.finals for s, d in zip(st, dfas))):
             out = []
             cur = st
